@@ -200,6 +200,9 @@ theorem c24_model_is_source (s : Buf α) (x : α) :
       = P2.Extracted.C24.insertT s.buf s.set s.cap x := by
   unfold Buf.insert P2.Extracted.C24.insertT
   by_cases hx : x ∈ s.set <;> simp [hx]
+  split
+  · cases s.buf.head? <;> rfl
+  · rfl
 
 /-! ## Non-vacuity: a concrete run with an eviction and a re-insertion of the evicted item. -/
 example : (after (new 2 : Buf Nat) [1, 2, 1, 3, 1]).buf = [3, 1] := by decide
